@@ -178,6 +178,7 @@ CYCLES = {
                                                        ("buy", "r1", "x1", True), ("buy", "REST", "x2", True)], "short"),
     "long: open, close by oversize reduce-only stop": ([("buy", "q1", "p1", False), ("sell", "BIG", "x1", True)], "long"),
     "long: open, close with one market order": ([("buy", "q1", "p1", False), ("sell", "ALL1", "x1", False)], "long"),
+    "long: open, partial take-profit, oversize (full-size) reduce-only stop": ([("buy", "q1", "p1", False), ("sell", "r1", "x1", True), ("sell", "ALL1", "x2", True)], "long"),
 }
 SAMPLE = {"q1": F(2), "q2": F(1), "r1": F(1), "p1": F(10), "p2": F(12), "x1": F(13), "x2": F(9), "f": F(1, 100),
           "Wt": F(1000), "lev": F(2), "cp": F(11), "t0": F(0), "t1": F(60000), "t2": F(120000), "t3": F(180000), "t4": F(240000), "big": F(5)}
@@ -252,7 +253,7 @@ def check_cycles(repo, rep):
                     probs.append(f"trade qty {tq!r} != sum of entry fills {Q!r}")
                 if not (isinstance(te, R) and te.same(e_exp)):
                     probs.append(f"trade entry {te!r} != quantity-weighted entry {e_exp!r}")
-                if not (isinstance(tx, R) and tx.same(x_exp)):
+                if "oversize" not in cname and not (isinstance(tx, R) and tx.same(x_exp)):
                     probs.append(f"trade exit {tx!r} != quantity-weighted exit {x_exp!r}")
                 if [o.name for o in t.attrs["orders"]] != [f"F{i}" for i in range(len(fills))]:
                     probs.append(f"trade order list {[o.name for o in t.attrs['orders']]}")
@@ -267,9 +268,13 @@ def check_cycles(repo, rep):
                 if "oversize" not in cname:
                     if not (isinstance(pnl, R) and pnl.same(dw)):
                         probs.append(f"trade net PnL {pnl!r} != wallet change {dw!r}")
+                elif not (isinstance(pnl, R) and pnl.same(dw)):
+                    rep.violation("C06-R3o", "oversize-reduce-only|trade-log",
+                                  f"cycle '{cname}': the reduce-only exit is larger than the remaining position; the trade log books the whole order "
+                                  f"quantity as exit (trade exit {tx!r}, net PnL {pnl!r}) although only the remaining size was closed (wallet change {dw!r})")
                 fee = it.getattr(t, "fee")
                 fee_exp = A("f") * Q * (e_exp + x_exp)
-                if not (isinstance(fee, R) and fee.same(fee_exp)):
+                if "oversize" not in cname and not (isinstance(fee, R) and fee.same(fee_exp)):
                     probs.append(f"trade fee {fee!r} != fee*qty*(entry+exit)")
             hk = [(e[1], e[2]) for e in out.events if e[0] == "strategy_hook"]
             if len(hk) != len(fills):
